@@ -56,6 +56,93 @@ def normalise_doc(d):
     return d
 
 
+
+# ---- the rebuild (ModelLoad.load): the state Model._from_dict builds, observed like a history of API calls ----
+LOAD_IMPORTS = 'Prelude Codec ModelIO Model ModelOps ModelLoad'
+LOAD_TYPE = 'list (string * list (string * Z)) * content * bool * jv'
+LOAD_CHECK = 'Definition check (c : list (string * list (string * Z)) * content * bool * jv) : bool := load_check c.'
+LOAD_EXTRA = {'LOADABLE': 'count_true (fun c : list (string * list (string * Z)) * content * bool * jv => '
+                          "let '(t, k, _, _) := c in loadable (defaults_of t) k) cases"}
+
+
+def defaults_table(lg, L):
+    tbl = []
+    for a in L['assets']:
+        t = a['name']
+        la = lg.get_asset_by_name(t)
+        row = []
+        for name in MG.defenses_of(lg, t):
+            step = next(s for s in la.attack_steps if s.name == name)
+            row.append((name, 1024 if (step.ttc and step.ttc.get('name') == 'Enabled') else 0))
+        tbl.append((t, row))
+    return tbl
+
+
+def c_table(tbl) -> str:
+    return C.clist([f'({C.cstr(t)}, ' + C.clist([f'({C.cstr(k)}, {C.cZ(v)})' for k, v in row]) + ')' for t, row in tbl])
+
+
+def loaded_obs(m2, lg):
+    """ModelOps.obs_mstate of a model built by the loader: handles are the positions in the lists of the model."""
+    w = PM.MWorld.__new__(PM.MWorld)
+    w.m, w.lg = m2, lg
+    w.assets, w.assocs, w.atts = list(m2.assets), list(m2.associations), list(m2.attackers)
+    w.assoc_meta = []
+    for c in w.assocs:
+        lf, rf = list(m2.get_association_field_names(c))
+        w.assoc_meta.append((c.__class__.__name__, str(lf), str(rf)))
+    return w.obs()
+
+
+def doc_of_content(cont):
+    name, assets, assocs, atts = cont
+    doc = {'metadata': {'name': name, 'langVersion': '0', 'langID': 'x'}, 'assets': {}, 'associations': [], 'attackers': {}}
+    for i, n, t, defs, ex in assets:
+        e = {'name': n, 'type': t}
+        if defs: e['defenses'] = dict(defs)
+        if ex: e['extras'] = copy.deepcopy(ex)
+        doc['assets'][i] = e
+    for cls, lf, l, rf, r, ex in assocs:
+        e = {cls: {lf: list(l), rf: list(r)}}
+        if ex: e['extras'] = copy.deepcopy(ex)
+        doc['associations'].append(e)
+    for i, n, eps in atts:
+        doc['attackers'][i] = {'name': n, 'entry_points': {a: {'attack_steps': list(st)} for a, st in eps}}
+    return doc
+
+
+def mutate_content(rng, cont):
+    """Contents the loader must treat specially: a duplicate asset name (renamed), a repeated link (rejected),
+    a reference to an asset that is not there (rejected)."""
+    name, assets, assocs, atts = copy.deepcopy(cont)
+    kind = rng.choice(['dupname', 'duplink', 'missing'])
+    if kind == 'dupname' and len(assets) >= 2:
+        i, j = rng.sample(range(len(assets)), 2)
+        a = list(assets[j]); a[1] = assets[i][1]; assets[j] = tuple(a)
+    elif kind == 'duplink' and assocs:
+        c = rng.choice(assocs)
+        assocs.append((c[0], c[1], [rng.choice(c[2])], c[3], [rng.choice(c[4])], {}))
+    elif kind == 'missing' and assocs:
+        j = rng.randrange(len(assocs))
+        c = list(assocs[j]); c[2] = list(c[2]) + [977]; assocs[j] = tuple(c)
+    else:
+        return None, None
+    return kind, (name, assets, assocs, atts)
+
+
+def load_case(impl, cont, lg, lcf, tbl):
+    """Run Model._from_dict on the document of the content; returns the Gallina case and whether it loaded."""
+    from maltoolbox.model import Model
+    doc = doc_of_content(cont)
+    try:
+        m2 = Model._from_dict(doc, lcf)
+        ok, obs = True, loaded_obs(m2, lg)
+    except RecursionError:
+        raise
+    except Exception:
+        ok, obs = False, None
+    return f'({c_table(tbl)}, {c_content(cont)}, {C.cbool(ok)}, {C.cjv(obs)})', ok
+
 def build_model(impl, rng, L, fixed):
     g = PM.Gen(impl, L, rng)
     for _ in range(rng.randint(10, 32)):
@@ -140,6 +227,7 @@ def check(pid: str, tier: str, seed: int):
     t0 = time.time()
     rng = random.Random(seed * 86028121 + 7)
     violations, cases, metas = [], [], []
+    lcases, lmetas = [], []
     formats = {'json': 0, 'yml': 0, 'yaml': 0}
     with C.Scratch() as scratch:
         impl = C.import_impl()
@@ -163,6 +251,20 @@ def check(pid: str, tier: str, seed: int):
                 metas.append({'content': cont, 'format': ext, 'prop_viol': pv, 'kind': 'roundtrip'})
             if not docs:
                 metas.append({'content': cont, 'format': None, 'prop_viol': pv, 'kind': 'roundtrip'})
+            # the rebuild: the state the loader builds from this content, and from damaged variants of it
+            lg = lcf.lang_graph
+            tbl = defaults_table(lg, L)
+            lc, ok = load_case(impl, cont, lg, lcf, tbl)
+            lcases.append(lc)
+            lmetas.append({'content': cont, 'kind': 'saved', 'impl_loaded': ok})
+            if not ok:
+                pv.append('the document of a model built through the API was rejected by the loader')
+            if rng.random() < 0.5:
+                kind, mc = mutate_content(rng, cont)
+                if mc is not None:
+                    lc, ok = load_case(impl, mc, lg, lcf, tbl)
+                    lcases.append(lc)
+                    lmetas.append({'content': mc, 'kind': kind, 'impl_loaded': ok})
         # hand-written documents
         for i in range(60 if tier == 'quick' else 600):
             L = langs[i % len(langs)]
@@ -193,6 +295,8 @@ def check(pid: str, tier: str, seed: int):
             cases.append(f'({c_content(cont)}, {C.cjv(normalise_doc(full))})')
             metas.append({'content': cont, 'format': 'hand', 'prop_viol': pv, 'kind': 'handwritten', 'doc': doc})
         bad, counters, errors = C.run_cases(pid, IMPORTS, CASE_TYPE, CHECK_DEF, cases, EXTRA)
+        lbad, lcounters, lerrors = C.run_cases(pid + 'L', LOAD_IMPORTS, LOAD_TYPE, LOAD_CHECK, lcases, LOAD_EXTRA, shard=100)
+        errors = errors + lerrors
     if errors:
         violations.append({'message': 'the correspondence could not be evaluated', 'cause': 'coq-error',
                            'correspondence': 'corr_C07_encode_decode', 'errors': errors[:3]})
@@ -207,9 +311,18 @@ def check(pid: str, tier: str, seed: int):
         violations.append({'message': 'implementation and model disagree; no input found on which the property itself fails',
                            'cause': 'model-mismatch', 'correspondence': 'corr_C07_encode_decode (ModelIO.encode / decode)',
                            'content': m['content'], 'format': m['format'], 'mismatching_cases': len(bad)})
+    if lbad and not propbad:
+        m = min((lmetas[i] for i in lbad), key=lambda x: len(json.dumps(x['content'], default=str)))
+        violations.append({'message': 'the loader and its model (ModelLoad.load) build different models; no input found on which the property itself fails',
+                           'cause': 'model-mismatch-load', 'correspondence': 'corr_C07_load (ModelLoad.load_check)',
+                           'content': m['content'], 'kind': m['kind'], 'impl_loaded': m['impl_loaded'], 'mismatching_cases': len(lbad)})
     nontriv = {json.dumps(m['content'], sort_keys=True, default=str) for m in metas
                if m['kind'] == 'roundtrip' and m['content'][2] and m['content'][1]}
-    cov = {'evaluations': len(cases), 'distinct_nontrivial': len(nontriv),
+    lk = {}
+    for m in lmetas:
+        lk[m['kind']] = lk.get(m['kind'], 0) + 1
+    cov = {'evaluations': len(cases) + len(lcases), 'distinct_nontrivial': len(nontriv),
+           'load_cases': lk, 'load_cases_loadable': lcounters.get('LOADABLE', 0), 'load_mismatches': len(lbad),
            'rule': 'models built by seeded API histories (removals, explicit / zero / negative ids, non-default defenses, extras on assets and '
                    'associations, attackers with entry points, duplicate-named association classes, unicode and YAML-significant names) saved to '
                    '.json/.yml/.yaml, loaded, re-saved; + hand-written documents with ids in any order, id 0 and the type-only shorthand; '
@@ -221,8 +334,8 @@ def check(pid: str, tier: str, seed: int):
             'trusted': ['json / PyYAML turn a value tree into text and back; integer keys become strings in JSON (H-codec)',
                         'float(str(x)) = x for the defense values used (dyadic)'],
             'assumptions': ['attacker ids are distinct (the file format keys attackers by id)',
-                            'the loader rebuilding the model from the decoded content through the API is covered by C05 and by this '
-                            'run on real files, not by a separate theorem',
+                            'every content of a model built through the API satisfies ModelLoad.loadable (counted: load_cases_loadable; '
+                            'a content that is not loadable and loads anyway, or the reverse, is a mismatch)',
                             'theorems are about the Gallina model; the model is tied to the code by this run only']}
 
 
